@@ -34,6 +34,8 @@ def run(run, env, prop, binpath=None, extra_env=None, key_prefix="model-vs-impl"
     stats = json.load(open(os.path.join(wd, "stats.json")))
     labels = json.load(open(os.path.join(wd, "labels.json"))) if os.path.exists(os.path.join(wd, "labels.json")) else {}
     files = sorted(glob.glob(os.path.join(wd, "cases_*.v")))
+    from props import _servebytes
+    sbh = _servebytes.start(wd)         # sbytes_*.v (the server from the request body), evaluated alongside the batches
     res = vlib.run_case_files(files)
     ok = True
     for f, (r, out2) in sorted(res.items()):
@@ -50,6 +52,7 @@ def run(run, env, prop, binpath=None, extra_env=None, key_prefix="model-vs-impl"
     run.obligation("correspondence: model = implementation on every generated batch", ok)
     if not ok and not run.violations and not run.known_hits:
         run.violation("correspondence-broken", "case files could not be evaluated", dict(notes=run.notes), no_input=True)
+    _servebytes.finish(run, sbh, prop, labels)   # obligation "serve_bytes" + violations serve-bytes:<what>
     for p in stats.get("panic_list") or []:
         run.violation("panic", "implementation panicked: " + p, dict(panic=p))
     for d in stats.get("direct_violations") or []:
